@@ -6,8 +6,8 @@
    [integral f g] = sum over all bins of f(i) * delta_wavelength;  [csbin g cs i] = what the component
    list cs adds to bin i;  [total_rad cs] = sum of the component radiances. *)
 Require Import Cherab.Common.Qx.
-Require Import Cherab.Model.C02_LineShape.
-Require Import Cherab.Proofs.C02_Gauss Cherab.Proofs.C02_Norm Cherab.Proofs.C02_Weights.
+Require Import Cherab.Model.C02_LineShape Cherab.Model.C02_Quadrature.
+Require Import Cherab.Proofs.C02_Gauss Cherab.Proofs.C02_Norm Cherab.Proofs.C02_Weights Cherab.Proofs.C02_Quadrature.
 Open Scope Q_scope.
 
 (* 1. the bin loop of add_gaussian_line, with its running lower_integral, early exits and floor/ceil
@@ -207,6 +207,21 @@ Proof.
      | now apply zero_sigma_adds_nothing].
 Qed.
 Print Assumptions C02_zero_width_adds_nothing.
+
+(* 18. GaussianQuadrature (the integrator of the Stark part): after construction and ANY history of calls of the
+   min_order / max_order / relative_tolerance / integrand setters (rejected ones included), for every order o that
+   evaluate() tries, the index ibegin it reads from is the index at which _build_cache stored the row of order o, and
+   the row lies inside the allocated arrays (bounds checks are off in that loop) *)
+Close Scope Q_scope.
+Theorem C02_quadrature_cache_row :
+  forall (mx mn : Z) (p : bool) (ops : list qop) (s0 : qstate), q_init mx mn p = Some s0 ->
+  let s := fst (q_run s0 ops) in
+  (1 <= q_min s <= q_max s)%Z /\
+  forall o : Z, (q_min s <= o <= q_max s)%Z ->
+    row_in_eval s o = row_in_cache s o /\ (0 <= row_in_eval s o)%Z /\ (row_in_eval s o + o <= cache_len s)%Z.
+Proof. exact quadrature_rows. Qed.
+Open Scope Q_scope.
+Print Assumptions C02_quadrature_cache_row.
 
 (* non-vacuity: a grid, a line and weights satisfying the hypotheses used above *)
 Definition witness_grid : grid := {| gmin := 650; gmax := 660; gbins := 20; gdelta := 1 # 2 |}.
